@@ -480,6 +480,10 @@ def _norm1(e, ctx):
             if r_ is not None and r_ != e:
                 return r_
         fn, args, kwargs = e[1], e[2], e[3]
+        # Cat(Const(0, k), X) shifts X left by k places: X * 2**k
+        if fn == ('name', 'Cat') and len(args) == 2 and not kwargs and args[0][0] == 'call' and args[0][1] in (('name', 'Const'), ('name', 'C')) and \
+                len(args[0][2]) == 2 and args[0][2][0] == ('const', 0) and not args[0][3]:
+            return ('nary', '*', (('bin', '**', ('const', 2), args[0][2][1]), args[1]))
         if any(a[0] == 'star' and a[1][0] in ('tuple', 'list') for a in args):
             flat = []
             for a in args:
